@@ -57,6 +57,11 @@ def gen_history(r: random.Random):
                 held += 1
             elif free:
                 steps.append(["request", r.randrange(cfg["n_origins"])])
+        elif x < 0.66:
+            if held:
+                # the body is read to its end but the response stays open (a slow consumer): the keep-alive period must
+                # not start before the response is closed
+                steps.append(["drain", r.randrange(held)])
         elif x < 0.72:
             if held:
                 steps.append(["release", r.randrange(held)])
@@ -114,6 +119,7 @@ async def run_history(flavor, cfg, steps, cnt, v, sigs_out):
     api = API(flavor, pool, net)
     m = Model(cfg, net, pool)
     held = []  # (cm, transport)
+    drained = set()
     sit = set()
     maxc = cfg["max_connections"] if cfg["max_connections"] is not None else 10 ** 9
     maxk = min(maxc, cfg["max_keepalive"] if cfg["max_keepalive"] is not None else 10 ** 9)
@@ -204,11 +210,18 @@ async def run_history(flavor, cfg, steps, cnt, v, sigs_out):
             if budget_evict and idle0:
                 cnt["eviction_situations"] += 1
                 sit.add("eviction")
+        elif kind == "drain":
+            cm, t, resp = held[step[1]]
+            if id(resp) not in drained:
+                drained.add(id(resp))
+                out = await guarded(flavor, lambda: api.read(resp))
+            budget_evict = 0
         elif kind == "release":
             cm, t, resp = held.pop(step[1])
 
             async def rel():
-                await api.read(resp)  # finish the exchange so that the connection can go idle
+                if id(resp) not in drained:
+                    await api.read(resp)  # finish the exchange so that the connection can go idle
                 await api.close(cm)
             out = await guarded(flavor, rel)
             m.holds[t] -= 1
